@@ -107,6 +107,7 @@ func exhMain(out, prop string, maxLen, coqBudget int, seed uint64) {
 		Footer: func(int) string {
 			return "Definition M := Eval vm_compute in mismatches cases.\nPrint M.\nDefinition B := Eval vm_compute in first_bad cases.\nPrint B.\n"
 		}}
+	seqWatchdog = hutil.NewWatchdog(seqHangReporter(sum, cases, out))
 	// count first, to space the Coq subset evenly
 	total := 0
 	var count func(depth int, used uint64)
